@@ -137,8 +137,13 @@ def run_kani_group(group, names, jobs, harness_timeout, overall_timeout, mem_gb,
         cmd += ["--harness", n]
     cmd += ["-j", str(jobs), "--output-format", "terse", "--export-json", jpath,
             "--harness-timeout", "%ds" % harness_timeout]
+    # the address-space limit is inherited by kani-driver itself, whose own virtual size grows with the number of
+    # parallel harnesses (it parses every CBMC's JSON output): a limit below ~30 GB makes the *driver* abort
+    # ("memory allocation failed ... No exit code?") and loses the whole batch, so the per-property figure is only a
+    # lower bound here; runaway CBMC processes are still stopped by this limit and by the per-harness timeout
+    vlimit_gb = max(int(mem_gb), 32)
     sh = "ulimit -v %d; exec timeout %d %s" % (
-        mem_gb * 1024 * 1024, overall_timeout, " ".join("'%s'" % c for c in cmd))
+        vlimit_gb * 1024 * 1024, overall_timeout, " ".join("'%s'" % c for c in cmd))
     t0 = time.time()
     lockf = open(os.path.join(BUILD, group + ".lock"), "w")
     fcntl.flock(lockf, fcntl.LOCK_EX)
@@ -353,7 +358,7 @@ def run_check(spec, tier, seed):
         for i in range(0, len(ghs_all), 250):
             batches.append((group, ghs_all[i:i + 250]))
     for bi, (group, ghs) in enumerate(batches):
-        jobs = min(caps.get("jobs", 16), max(1, len(ghs)))
+        jobs = min(int(caps.get("jobs", 12)), 12, max(1, len(ghs)))
         data, lpath, wall, rc, cmdtxt = run_kani_group(group, [h.name for h in ghs], jobs, ht, ot, mem,
                                                         "%s-%s-%d" % (pid, tier, bi), tier)
         cmds.append(cmdtxt)
